@@ -403,11 +403,53 @@ func propC17(cx *sim.Ctx) {
 		sim.Probe("reference_unusable")
 		return
 	}
+	allLocs := map[string]bool{}
+	for _, tg := range c.Targets {
+		if len(tg) == 1 {
+			allLocs["$"] = true
+			continue
+		}
+		for _, loc := range tg.Locate(doc, 0) {
+			allLocs[loc.String()] = true
+		}
+	}
+	// the known filter limitation (only the first hit is reported, path and value taken from two
+	// evaluations in different orders) can only show when some collected element has two or more hits
+	filterMulti := false
+	for _, tg := range c.Targets {
+		for i, f := range tg {
+			if _, ok := f.(*jp.Filter); ok {
+				// (judged over every node of the document: PathMatch may hand the handler another element
+				// than the one the part in front of the filter denotes - slices, negative indexes)
+				rest := tg[i:]
+				var visit func(v any)
+				visit = func(v any) {
+					if len(rest.Locate(v, 0)) >= 2 {
+						filterMulti = true
+					}
+					switch tv := v.(type) {
+					case []any:
+						for _, e := range tv {
+							visit(e)
+						}
+					case map[string]any:
+						for _, e := range tv {
+							visit(e)
+						}
+					}
+				}
+				visit(doc)
+				break
+			}
+		}
+	}
 	attrs := func(extra ...any) map[string]any {
 		m := map[string]any{}
 		for k, v := range c.Feat {
 			m[k] = v
 		}
+		m["filter_multi_match"] = filterMulti
+		m["filter_with_other_targets"] = c.Feat["filter"] == true && len(c.Targets) >= 2
 		m["maxint_boundary_literal"] = hasMaxIntBoundaryLiteral(in)
 		for i := 0; i+1 < len(extra); i += 2 {
 			m[extra[i].(string)] = extra[i+1]
@@ -432,6 +474,28 @@ func propC17(cx *sim.Ctx) {
 		cx.Exec()
 		if bad(o) {
 			return
+		}
+		// soundness, judged independently of completeness: every callback names a location that some
+		// target selects, with the value the document has there
+		for _, h := range o.Hits {
+			p, perr := jp.ParseString(h.Path)
+			if perr != nil {
+				cx.Fail(fmt.Sprintf("C17/reference/%s/unsound-path", o.Name), fmt.Sprintf("callback path %q does not parse: %v", h.Path, perr), attrs())
+				break
+			}
+			if !allLocs[h.Path] {
+				cx.Fail(fmt.Sprintf("C17/reference/%s/unsound-path", o.Name), fmt.Sprintf("callback for %s, which no target selects; callbacks: %s ; parse-then-locate: %s", h.Path, hitsString(o.Hits), hitsString(want)), attrs())
+				break
+			}
+			v, ok := walkSimple(doc, p)
+			if !ok {
+				cx.Fail(fmt.Sprintf("C17/reference/%s/unsound-path", o.Name), fmt.Sprintf("callback for %s, which does not exist in the document", h.Path), attrs())
+				break
+			}
+			if same, where := ref.SameValue(h.Value, v); !same {
+				cx.Fail(fmt.Sprintf("C17/reference/%s/unsound-value", o.Name), fmt.Sprintf("callback for %s carries %s, the document has %s there (%s)", h.Path, clip(ref.Exact(h.Value)), clip(ref.Exact(v)), where), attrs())
+				break
+			}
 		}
 		if len(o.Hits) != len(want) {
 			cx.Fail(fmt.Sprintf("C17/reference/%s/count", o.Name), fmt.Sprintf("callbacks: %s ; parse-then-locate: %s", hitsString(o.Hits), hitsString(want)), attrs())
